@@ -187,10 +187,13 @@ def _alarm(signum, frame):
     raise _Timeout()
 
 
+DEFAULT_TIMEOUT = 900       # wall-clock budget of an obligation that does not state one (nothing may run unbounded)
+
+
 def _run_one(i):
     ob = _OBLIGS[i]
     t0 = time.time()
-    to = ob.timeout
+    to = ob.timeout or DEFAULT_TIMEOUT
     if os.environ.get("VERIF_DEBUG_HANG"):
         import faulthandler
         faulthandler.dump_traceback_later(int(os.environ["VERIF_DEBUG_HANG"]), exit=False)
@@ -297,7 +300,7 @@ def run_obligations(obligs, jobs=None):
                 got = (wk.cur, jsonable_deep(Outcome(FAULT, detail=f"obligation process exited with code {wk.p.exitcode} and no result").as_dict()))
                 wk.close(kill=True)
                 workers[k] = _W()
-            to = obligs[wk.cur].timeout if wk.cur is not None else None
+            to = (obligs[wk.cur].timeout or DEFAULT_TIMEOUT) if wk.cur is not None else None
             if got is None and to and time.time() - wk.t0 > to + grace:
                 d = Outcome(UNDECIDED, backend="timeout", detail=f"wall-clock budget {to}s exhausted (process killed: the solver did not return)").as_dict()
                 d["seconds"] = round(time.time() - wk.t0, 2)
